@@ -52,6 +52,7 @@ def with_patch(patch, fn):
 
 def run_check(prop, wt, out, seed=None):
     env = dict(os.environ, VERIF_REPO=wt, VERIF_EVIDENCE_DIR=out, VERIF_REPLAY_DIR=out)
+    env.setdefault("VERIF_MAX_REPORT", "1")  # one minimised violation with a replay file is what is checked here
     if seed is not None:
         env["VERIF_SEED"] = str(seed)
     r = sh([os.path.join(HERE, "check"), prop, "--tier", "quick"], env=env)
@@ -113,8 +114,17 @@ def main():
     args = sys.argv[1:]
     results = []
     ok = True
+    shard = None
+    if len(args) >= 2 and "/" in args[-1] and args[0] in ("seeded", "mutants", "benign"):
+        i, n = args[-1].split("/")
+        shard = (int(i), int(n))  # e.g. "seeded 0/2": every second entry, starting with the first
+        args = args[:-1]
+
+    def mine(items):
+        return [x for k, x in enumerate(items) if shard is None or k % shard[1] == shard[0]]
+
     if args and args[0] == "seeded":
-        for d in sorted(glob.glob(os.path.join(HERE, "seeded", "*"))):
+        for d in mine(sorted(glob.glob(os.path.join(HERE, "seeded", "*")))):
             meta = json.load(open(os.path.join(d, "meta.json")))
             r = evaluate_mutant(os.path.join(d, "patch.diff"), meta.get("verif", {}).get("check_property") or meta["property"], demo=os.path.join(d, "demo.py"))
             results.append(r)
@@ -125,14 +135,14 @@ def main():
                 ok &= bool(r.get("caught")) and r.get("replay_reproduces_on_mutant", False) and r.get("replay_clean_on_unchanged_tree", False)
             print(json.dumps(r), flush=True)
     elif args and args[0] == "mutants":
-        for p in sorted(glob.glob(os.path.join(HERE, "selftest", "mutants", "*.patch"))):
+        for p in mine(sorted(glob.glob(os.path.join(HERE, "selftest", "mutants", "*.patch")))):
             prop = os.path.basename(p).split("-")[0]
             r = evaluate_mutant(p, prop)
             results.append(r)
             ok &= bool(r.get("caught")) and r.get("replay_reproduces_on_mutant", False)
             print(json.dumps(r), flush=True)
     elif args and args[0] == "benign":
-        for p in sorted(glob.glob(os.path.join(HERE, "selftest", "benign", "*.patch"))):
+        for p in mine(sorted(glob.glob(os.path.join(HERE, "selftest", "benign", "*.patch")))):
             r = evaluate_benign(p)
             results.append(r)
             ok &= bool(r.get("green"))
@@ -145,7 +155,8 @@ def main():
         print(__doc__)
         return 2
     if args and args[0] in ("seeded", "mutants", "benign"):
-        with open(os.path.join(HERE, "selftest", f"last_{args[0]}.json"), "w") as f:
+        suffix = "" if shard is None else f".{shard[0]}of{shard[1]}"
+        with open(os.path.join(HERE, "selftest", f"last_{args[0]}{suffix}.json"), "w") as f:
             json.dump(results, f, indent=1)
     return 0 if ok else 1
 
